@@ -8,6 +8,8 @@
 -/
 import XotModel.Lemmas.ForestBasic
 import XotModel.Lemmas.FmapMove
+import XotModel.Lemmas.FmapHistPos
+import XotModel.Lemmas.FmapHistSer
 
 namespace XotModel.Props
 open XotModel
@@ -495,5 +497,227 @@ example : abs .attributes c11Example 1 = [(3, .str ['v']), (5, .str ['w'])] ∧
     (runOps 1 c11Example [.insert .attributes (.attribute 9 []), .remove .attributes 3,
       .insertNode .namespaces (.namespace 0 5), .clear .attributes]).2 = [.ok, .ok, .ok, .ok] := by
   decide
+
+/-! ## Histories of ALL the updates, on a forest with several elements
+
+  `MapOp2` (Model/FmapSpec2.lean) has one constructor per update the property lists: the
+  map-style calls `insert`, `remove`, `clear`, `get_mut` + assignment, the entry API
+  (`or_insert`, `or_default`, `and_modify`, `and_modify(..).or_insert`, the `match` on the entry
+  with `insert` in both arms, `Occupied::insert`, `Vacant::insert`, `Occupied::remove`), the
+  wrappers `set_attribute` / `remove_attribute` / `set_namespace` / `remove_namespace`, and the
+  node-style calls `append_attribute_node` / `append_namespace_node` of a new node, of a
+  parentless node, of a node that already is an entry of the view, of an entry node of ANOTHER
+  element (the move), `any_append` of each of these, `detach` and `remove` of an entry node.
+  Each names the element it is addressed to; `MapOp2.ok f op` are the side conditions (live
+  elements, entry values of the view's kind, node arguments being what the constructor says),
+  evaluated in the state the step starts from.  The reference is a family of ordered maps indexed
+  by element and view (`Fam`, `specStep`). -/
+
+/-- One step, every update: it returns `ok`, the invariant holds again, EVERY view of EVERY node
+    is the reference family's after `specStep`, elements stay elements (and nothing becomes one),
+    and the (key, node) list of every view changes by `KNStep` only. -/
+theorem C11_step_all (f : Forest) (hi : f.Inv) (F : Fam) (hF : ∀ x k, abs k f x = F x k)
+    (op : MapOp2) (hok : op.ok f = true) :
+    (op.run f).2 = .ok ∧ (op.run f).1.Inv ∧
+    (∀ x k, abs k (op.run f).1 x = specStep F op x k) ∧
+    (∀ x, (op.run f).1.isElement x = f.isElement x) ∧
+    (∀ x k, KNStep (absKN k f x) (absKN k (op.run f).1 x)) := by
+  obtain ⟨r, s⟩ := step_all hi hF op hok
+  exact ⟨r, s.inv, s.agree, s.elem, s.kn⟩
+
+/-- Histories: any interleaving of the updates of `MapOp2`, addressed to any live elements of
+    the forest, whose side conditions hold when their turn comes.  No step fails or panics;
+    afterwards both views of every node (in particular of every live element) are what the
+    reference family gives; keys are distinct; the live elements are those of the start; the
+    invariant holds in every state gone through, and consecutive states are `Stable` (every
+    view's (key, node) list changes by `KNStep`). -/
+theorem C11_histories_all (f : Forest) (hi : f.Inv) (ops : List MapOp2)
+    (hok : (runOps2 f ops).2.2 = true) :
+    (∀ r ∈ (runOps2 f ops).2.1, r = .ok) ∧
+    (∀ e k, abs k (runOps2 f ops).1 e = specOps2 (famOf f) ops e k) ∧
+    (∀ e k, omWf (abs k (runOps2 f ops).1 e)) ∧
+    (∀ e, (runOps2 f ops).1.isElement e = f.isElement e) ∧
+    (runOps2 f ops).1.Inv ∧
+    (∀ g ∈ trace2 f ops, g.Inv) ∧ StableTrace (trace2 f ops) := by
+  obtain ⟨h1, h2, h3, h4, h5, h6⟩ := history_all ops f (famOf f) hi (fun _ _ => rfl) hok
+  exact ⟨h1, h3, fun e k => unique_keys_of_inv _ h2 k e, h4, h2, h5, h6⟩
+
+/-- `absKN` pairs the keys of `abs` with the nodes of `absNodes`. -/
+theorem C11_kn_views (f : Forest) (k : Forest.MapKind) (x : Nat) :
+    (absKN k f x).map (·.1) = omKeys (abs k f x) ∧ (absKN k f x).map (·.2) = absNodes k f x :=
+  ⟨absKN_fst k f x, absKN_snd k f x⟩
+
+/-- Positions and nodes over one step, for every view of every node.  The (key, node) list
+    afterwards is a sublist of the one before, or the one before with one new pair at the end.
+    Hence: a step that keeps the key list (an update of existing keys) keeps the handle list; an
+    entry whose key survives keeps its node; two entries that survive keep their relative
+    order. -/
+theorem C11_positions_stable (f : Forest) (hi : f.Inv) (op : MapOp2) (hok : op.ok f = true)
+    (x : Nat) (k : Forest.MapKind) :
+    KNStep (absKN k f x) (absKN k (op.run f).1 x) ∧
+    (omKeys (abs k (op.run f).1 x) = omKeys (abs k f x) →
+      absNodes k (op.run f).1 x = absNodes k f x) ∧
+    (∀ key hd, (key, hd) ∈ absKN k f x → key ∈ omKeys (abs k (op.run f).1 x) →
+      (key, hd) ∈ absKN k (op.run f).1 x) ∧
+    (∀ p q, p ∈ absKN k f x → q ∈ absKN k f x → p ∈ absKN k (op.run f).1 x →
+      q ∈ absKN k (op.run f).1 x →
+      ([p, q].Sublist (absKN k f x) ↔ [p, q].Sublist (absKN k (op.run f).1 x))) :=
+  positions_stable f hi op hok x k
+
+/-- Positions over a history: two entries (key with its node) that are in the view in every
+    state the history goes through — never removed, cleared, detached or moved away — have the
+    same relative order at the end as at the start (with `C11_positions_stable`: the same nodes). -/
+theorem C11_positions_history (f : Forest) (hi : f.Inv) (ops : List MapOp2)
+    (hok : (runOps2 f ops).2.2 = true) (x : Nat) (k : Forest.MapKind) (p q : Nat × Nat)
+    (hall : ∀ g ∈ trace2 f ops, p ∈ absKN k g x ∧ q ∈ absKN k g x) :
+    [p, q].Sublist (absKN k f x) ↔ [p, q].Sublist (absKN k (runOps2 f ops).1 x) :=
+  positions_history f hi ops hok x k p q hall
+
+/-- Nodes over a history: an entry whose key is in the view in every state the history goes
+    through (it may be updated, never removed, cleared, detached or moved away) is carried by the
+    same node in every state, in particular at the end. -/
+theorem C11_history_keeps_node (f : Forest) (hi : f.Inv) (ops : List MapOp2)
+    (hok : (runOps2 f ops).2.2 = true) (x : Nat) (k : Forest.MapKind) (key hd : Nat)
+    (h0 : (key, hd) ∈ absKN k f x) (hall : ∀ g ∈ trace2 f ops, key ∈ omKeys (abs k g x)) :
+    (∀ g ∈ trace2 f ops, (key, hd) ∈ absKN k g x) ∧ (key, hd) ∈ absKN k (runOps2 f ops).1 x :=
+  ⟨history_keeps_node f hi ops hok x k key hd h0 hall,
+    history_keeps_node f hi ops hok x k key hd h0 hall _ (trace2_last ops f)⟩
+
+/-! ### The remaining reads -/
+
+/-- `iter()` yields the reference map's entries in order, i.e. `keys()` zipped with `values()`;
+    `to_vec()` is that list; `to_hashmap()` is the reference's (no hypothesis). -/
+theorem C11_reads_iter (f : Forest) (k : Forest.MapKind) (e : Nat) :
+    mapIter f k e = abs k f e ∧
+    mapIter f k e = (omKeys (abs k f e)).zip (omValues (abs k f e)) ∧
+    mapToVec f k e = abs k f e ∧
+    mapToHashmap f k e = omToHashmap (abs k f e) :=
+  ⟨mapIter_eq f k e, mapIter_zip f k e, mapIter_eq f k e, mapToHashmap_eq f k e⟩
+
+/-- `to_hashmap()` under the invariant IS the reference map as a finite map: shown as the
+    key-sorted list, it has strictly increasing keys, the reference's lookup for every key, and
+    the reference's size. -/
+theorem C11_to_hashmap (f : Forest) (hi : f.Inv) (k : Forest.MapKind) (e : Nat) :
+    SortedKeys (mapToHashmap f k e) ∧
+    (∀ key, (mapToHashmap f k e).lookup key = omGet (abs k f e) key) ∧
+    (mapToHashmap f k e).length = omLen (abs k f e) := by
+  rw [mapToHashmap_eq]
+  exact omToHashmap_spec _ (unique_keys_of_inv f hi k e)
+
+/-! ### Serialisation order, down to the tokens -/
+
+/-- Every live node of the forest is at some path of the erasure of its tree, so the next theorem
+    applies to every live element (with `start = []`, or `start` = any ancestor's path). -/
+theorem C11_serialisation_applies (f : Forest) (e : Nat) (t : HTree) (hg : f.get? e = some t) :
+    ∃ r ∈ f.roots, ∃ p, (HTree.erase r).at? p = some (HTree.erase t) := by
+  obtain ⟨r, hr, hf⟩ := findList?_root e f.roots t hg
+  obtain ⟨p, hp⟩ := erase_at_of_find e r t hf
+  exact ⟨r, hr, p, hp⟩
+
+/-- Serialisation writes declarations and attributes in view order.  Let the element `e` of the
+    forest sit at the path `start ++ rel` of a tree `T` that is serialised from `start`.  In the
+    event stream of `gen_outputs` its start tag is one contiguous block: start-tag-open, (if it is
+    the top node) the inherited declarations, its declarations in the order of `abs .namespaces`,
+    its attributes in the order of `abs .attributes`, start-tag-close (C16_events_element with
+    C11_order).  The token stream carries exactly these events in this order, so it has the
+    declaration tokens followed by the attribute tokens as one contiguous run, and the string
+    serialisation (`to_string`) is the concatenation of the token texts (C16_tokens). -/
+theorem C11_serialisation_order (f : Forest) (e name : Nat) (t : HTree) (hg : f.get? e = some t)
+    (hv : t.value = .element name) (T : Tree) (start rel : Path) (n : Tree)
+    (inScope : List (Nat × Nat)) (hn : T.at? start = some n)
+    (hs : namespacesInScope T start = some inScope) (hrel : n.at? rel = some (HTree.erase t)) :
+    (∃ pre post, genOutputs T start =
+      pre ++ [(start ++ rel, Output.startTagOpen name)]
+        ++ (if rel.isEmpty then extraPrefixes inScope (HTree.erase t) else []).map
+            (fun o => (start ++ rel, o))
+        ++ (absNs f e).map (fun d => (start ++ rel, Output.pfx d.1 d.2))
+        ++ (absAttrs f e).map (fun a => (start ++ rel, Output.attribute a.1 a.2))
+        ++ [(start ++ rel, Output.startTagClose)] ++ post) ∧
+    ∀ (esc : Escapers) (env : Env) (pr : TokenParams) (ks : List (Path × Output × OutputToken)),
+      tokensWith esc env pr T start = .ok ks →
+      (∃ k1 kd ka k2, ks = k1 ++ kd ++ ka ++ k2 ∧
+        kd.map (fun k => (k.1, k.2.1)) = (absNs f e).map (fun d => (start ++ rel, Output.pfx d.1 d.2)) ∧
+        ka.map (fun k => (k.1, k.2.1)) =
+          (absAttrs f e).map (fun a => (start ++ rel, Output.attribute a.1 a.2))) ∧
+      serializeStringWith esc env pr T start =
+        .ok (ks.flatMap (fun k => (if k.2.2.space then [' '] else []) ++ k.2.2.text)) :=
+  serialisation_order f e name t hg hv T start rel n inScope hn hs hrel
+
+/-! ### Non-vacuity of the history theorems -/
+
+/-- Two elements (1 and its child 5), a parentless attribute node 8. -/
+def c11Example3 : Forest :=
+  { roots := [.node 0 .document [.node 1 (.element 2)
+      [.node 2 (.namespace 0 2) [], .node 3 (.attribute 3 ['v']) [], .node 4 (.attribute 5 ['w']) [],
+       .node 5 (.element 4) [.node 6 (.attribute 7 ['x']) []], .node 7 (.text ['t']) []]],
+     .node 8 (.attribute 9 ['n']) []],
+    next := 9 }
+
+/-- A history with seven different constructors; the third step moves the attribute 5 of
+    element 1 to element 5. -/
+def c11HistoryA : List MapOp2 :=
+  [.setAttribute 1 11 ['a'],
+   .entryOrInsert .attributes 5 (.attribute 3 ['q']),
+   .appendAttachedNode .attributes 5 1 5,
+   .getMutSet .attributes 1 3 (.attribute 3 ['z']),
+   .entryAndModify .attributes 5 7 (fun p => match p with | .str s => .str (s ++ ['!']) | p => p),
+   .appendDetachedNode .attributes 1 8 (.attribute 9 ['n']),
+   .detachEntryNode .namespaces 1 0]
+
+/-- Seven other constructors; the first step moves the attribute 3 of element 1 to element 5
+    through `any_append`. -/
+def c11HistoryB : List MapOp2 :=
+  [.anyAppend 5 (.entry .attributes 1 3),
+   .removeEntryNode .attributes 5 7,
+   .occupiedInsert .attributes 1 (.attribute 5 ['b']),
+   .vacantInsert .namespaces 5 (.namespace 1 3),
+   .appendNewNode .namespaces 1 (.namespace 4 4),
+   .appendOwnNode .attributes 1 5,
+   .clear .attributes 5]
+
+example : c11Example3.Inv ∧ c11Example3.isElement 1 = true ∧ c11Example3.isElement 5 = true ∧
+    MapOp2.ok c11Example3 (.appendAttachedNode .attributes 5 1 5) = true :=
+  ⟨(Forest.inv_iff _).mp (by decide), by decide, by decide, by decide⟩
+
+example : (runOps2 c11Example3 c11HistoryA).2 = ([.ok, .ok, .ok, .ok, .ok, .ok, .ok], true) := by
+  decide
+
+example : (runOps2 c11Example3 c11HistoryB).2 = ([.ok, .ok, .ok, .ok, .ok, .ok, .ok], true) := by
+  decide
+
+example : abs .attributes (runOps2 c11Example3 c11HistoryA).1 1 =
+      [(3, .str ['z']), (11, .str ['a']), (9, .str ['n'])] ∧
+    abs .namespaces (runOps2 c11Example3 c11HistoryA).1 1 = [] ∧
+    abs .attributes (runOps2 c11Example3 c11HistoryA).1 5 =
+      [(7, .str ['x', '!']), (3, .str ['q']), (5, .str ['w'])] ∧
+    absKN .attributes (runOps2 c11Example3 c11HistoryA).1 5 = [(7, 6), (3, 10), (5, 4)] ∧
+    absKN .attributes (runOps2 c11Example3 c11HistoryA).1 1 = [(3, 3), (11, 9), (9, 8)] := by
+  decide
+
+example : abs .attributes (runOps2 c11Example3 c11HistoryB).1 1 = [(5, .str ['b'])] ∧
+    abs .namespaces (runOps2 c11Example3 c11HistoryB).1 1 = [(0, .ns 2), (4, .ns 4)] ∧
+    abs .attributes (runOps2 c11Example3 c11HistoryB).1 5 = [] ∧
+    abs .namespaces (runOps2 c11Example3 c11HistoryB).1 5 = [(1, .ns 3)] := by
+  decide
+
+/-- The hypotheses of `C11_positions_history`: the entries (3, node 3) and (5, node 4) of
+    element 1 are there in every state of the first two steps. -/
+example : ∀ g ∈ trace2 c11Example3 (c11HistoryA.take 2),
+    (3, 3) ∈ absKN .attributes g 1 ∧ (5, 4) ∈ absKN .attributes g 1 := by
+  decide
+
+/-- The hypotheses of `C11_history_keeps_node`: key 3 of element 1, carried by node 3, is there in
+    every state of history A (its value is rewritten by the fourth step). -/
+example : (3, 3) ∈ absKN .attributes c11Example3 1 ∧
+    ∀ g ∈ trace2 c11Example3 (c11HistoryA.take 5), 3 ∈ omKeys (abs .attributes g 1) := by
+  decide
+
+/-- The hypotheses of `C11_serialisation_order` on the example: element 1 at path `[0]` of the
+    erased document, serialised from the document node. -/
+example : ∃ t r, c11Example3.get? 1 = some t ∧ t.value = .element 2 ∧ r ∈ c11Example3.roots ∧
+    (HTree.erase r).at? [] = some (HTree.erase r) ∧
+    (namespacesInScope (HTree.erase r) []).isSome = true ∧
+    (HTree.erase r).at? [0] = some (HTree.erase t) :=
+  ⟨_, _, rfl, rfl, List.mem_cons_self, rfl, by decide, rfl⟩
 
 end XotModel.Props
